@@ -243,6 +243,28 @@ Definition apply_filter (px : str) (f : sfilter) (r : rule) : rule :=
   {| r_dets := fold_left (fun m kv => dset (pfx px (fst kv)) (snd kv) m) (f_dets f) (r_dets r);
      r_cond := CBin true (r_cond r) (rename px (f_cond f)) |}.
 
+(* the redraw loop of apply_on_rule: draw until no detection name of the rule starts with the prefix.
+   One application consumes a stream of candidate draws; None = the stream ends before a draw is accepted *)
+Definition prefix_free (p : str) (m : list (str * str)) : bool :=
+  forallb (fun kv => negb (prefixb p (fst kv))) m.
+Fixpoint pick (stream : list str) (m : list (str * str)) : option (str * list str) :=
+  match stream with
+  | [] => None
+  | p :: rest => if prefix_free p m then Some (p, rest) else pick rest m
+  end.
+(* filters applied one after the other, each with its own candidate stream (the adversary may repeat draws,
+   re-seed between applications, ...): chosen prefix and unconsumed candidates per application *)
+Fixpoint choose (streams : list (list str)) (fs : list sfilter) (r : rule) : option (list (str * list str)) :=
+  match streams, fs with
+  | [], [] => Some []
+  | s :: ss, f :: fs' =>
+      match pick s (r_dets r) with
+      | Some (p, rest) => option_map (cons (p, rest)) (choose ss fs' (apply_filter p f r))
+      | None => None
+      end
+  | _, _ => None
+  end.
+
 (* re.compile(pattern.replace("*", ".*")).fullmatch(identifier), pattern without other metacharacters *)
 Fixpoint glob (p s : str) : bool :=
   match p with
